@@ -75,9 +75,20 @@ def r2(ctx):
     if need(ctx, P, rule, MT_BYTE_OFFSET_CS, fa):
         pos = [s for s, t in fa.calls() if (t.get("callee") or "").endswith("Iterator::position")]
         ix = [s for s, t in fa.calls() if t.get("callee") == "std::ops::Index::index" and pos and term_has_call(fa.arg_origin(s, 1), fa.blocks[pos[0]].term["callee"]) == pos[0]]
-        if need(ctx, P, rule, "byte_offset_in_changeset: position(..) and the indexing bounded by it", pos and ix):
-            searched = term_sig(strip(fa.arg_origin(pos[0], 0)))
-            indexed = term_sig(strip(fa.arg_origin(ix[0], 0)))
+        tk = []
+        if pos and not ix:
+            # the same sum without indexing: `roots.iter().take(r)` — the collection iterated is the "indexed" one
+            tk = [s for s, t in fa.calls() if (t.get("callee") or "").endswith("Iterator::take") and term_has_call(fa.arg_origin(s, 1), fa.blocks[pos[0]].term["callee"]) == pos[0]]
+        if need(ctx, P, rule, "byte_offset_in_changeset: position(..) and the indexing bounded by it", pos and (ix or tk)):
+            def coll(t):
+                t = strip(t)
+                while isinstance(t, tuple) and t[0] == "call" and t[2].split("::")[-1] in ("iter", "into_iter", "deref", "as_slice", "borrow") and t[3]:
+                    t = strip(t[3][0])
+                return term_sig(t)
+            searched = coll(fa.arg_origin(pos[0], 0))
+            indexed = coll(fa.arg_origin(ix[0], 0)) if ix else coll(fa.arg_origin(tk[0], 0))
+            if not ix:
+                ix = tk
             ctx.check(P, rule, "the roots summed are the roots that were searched", searched == indexed, "position in %s, indexing %s" % (searched, indexed),
                       "byte_offset_in_changeset finds the root position in `%s` but sums lengths of `%s[i]` for i below it: the offset of a received block is computed from the replica's old roots (out of bounds on an empty replica, a wrong data offset otherwise)" % (searched, indexed),
                       [site_desc(fa, ix[0])], key="C03|C03.R2|byte_offset_in_changeset|roots provenance")
